@@ -77,7 +77,23 @@ def find_guards(fn):
             # rewrite the object's state (a regenerating method)
             if _relates_input_to_state(st.test, selfname) or (_mentions_self_state(st.test, selfname) and writes_after and params):
                 g = Guard(fn, st, i)
-                g.compared_params = names & set(params)
+                # parameters the test depends on, directly or through locals computed before the guard (a derived key)
+                defs = {}
+                for prev in fn.body[:i]:
+                    for a in ast.walk(prev):
+                        if isinstance(a, ast.Assign):
+                            used = {x.id for x in ast.walk(a.value) if isinstance(x, ast.Name)}
+                            for t in a.targets:
+                                for x in ast.walk(t):
+                                    if isinstance(x, ast.Name) and isinstance(x.ctx, ast.Store):
+                                        defs.setdefault(x.id, set()).update(used)
+                seen, todo = set(), list(names)
+                while todo:
+                    x = todo.pop()
+                    if x not in seen:
+                        seen.add(x)
+                        todo.extend(defs.get(x, ()))
+                g.compared_params = seen & set(params)
                 out.append(g)
     return out
 
